@@ -6,7 +6,7 @@ import ast
 from ..cfg import cfg_of
 from ..model import FunctionInfo, bind_args
 from ..roles import roles_of
-from ..terms import canon, conjuncts, const_num, guard_of, norm_stmt, state_key
+from ..terms import call_name, canon, conjuncts, const_num, guard_of, norm_stmt, state_key
 from .common import attr_stores, iter_stores, reaching_assignments, self_attr_of, store_base
 from .points import POINT_SLOTS, FilterSummary, PointAnalysis
 
@@ -40,6 +40,67 @@ def _is_cons_positive_test(test, cons_names, arg_pred) -> bool:
             if op is ast.Gt and const_num(r) == 0 and isinstance(l, ast.Call) and canon(l.func) in cons_names and l.args and arg_pred(l.args[0]):
                 return True
     return False
+
+
+SHAPE_ONLY_NP = {"np.asarray", "np.array", "np.atleast_1d", "np.atleast_2d", "np.ravel", "np.squeeze", "np.reshape", "np.ndarray.flatten"}
+SHAPE_ONLY_METHODS = {"reshape", "ravel", "flatten", "squeeze", "copy"}
+
+
+def _shape_only(expr, param, argnames) -> bool:
+    """``expr`` is the user's callable applied to (a reshaped view of) the wrapper's own argument, passed through
+    operations that change neither the sign nor the NaN-ness of any entry."""
+    e = expr
+    while True:
+        if isinstance(e, ast.Call) and call_name(e) in SHAPE_ONLY_NP and e.args:
+            if any(k.arg == "dtype" and canon(k.value) not in ("float", "np.float64") for k in e.keywords):
+                return False
+            e = e.args[0]
+        elif isinstance(e, ast.Call) and isinstance(e.func, ast.Attribute) and e.func.attr in SHAPE_ONLY_METHODS:
+            e = e.func.value
+        else:
+            break
+    if isinstance(e, ast.Call) and isinstance(e.func, ast.Name) and e.func.id == param and len(e.args) == 1 and not e.keywords:
+        a = e.args[0]
+        while isinstance(a, ast.Call) and (call_name(a) in SHAPE_ONLY_NP or (isinstance(a.func, ast.Attribute) and a.func.attr in SHAPE_ONLY_METHODS)):
+            a = a.args[0] if call_name(a) in SHAPE_ONLY_NP and a.args else a.func.value
+        return isinstance(a, ast.Name) and a.id in argnames
+    return False
+
+
+def constraint_identity(ctx, prog, R):
+    """Every filter and the start-point test compare the callable's result with 0; they are only as good as the callable
+    they are given.  The attribute must hold the constructor's parameter itself, ``None``, or a lambda / nested function
+    that applies the parameter to its own argument and only reshapes the result (a wrapper that maps NaN to 0, negates,
+    thresholds or caches changes which points count as feasible)."""
+    init = R.bads_init
+    if not R.cons_stores:
+        ctx.missing(init, "store of the constraint callable")
+        return
+    nested = {n.name: n for n in ast.walk(init.node) if isinstance(n, ast.FunctionDef) and n is not init.node}
+    def value_ok(v) -> bool:
+        if (isinstance(v, ast.Name) and v.id == R.cons_param) or (isinstance(v, ast.Constant) and v.value is None):
+            return True
+        if isinstance(v, ast.IfExp):
+            return value_ok(v.body) and value_ok(v.orelse)
+        body, argnames = None, set()
+        if isinstance(v, ast.Lambda):
+            body, argnames = v.body, {a.arg for a in v.args.args}
+        elif isinstance(v, ast.Name) and v.id in nested:
+            f = nested[v.id]
+            rets = [n for n in ast.walk(f) if isinstance(n, ast.Return) and n.value is not None]
+            if len(rets) == 1 and len(f.body) <= 2:
+                body, argnames = rets[0].value, {a.arg for a in f.args.args}
+        return body is not None and _shape_only(body, R.cons_param, argnames)
+
+    for st, v in R.cons_stores:
+        if value_ok(v):
+            ctx.ok(init, st, f"self.{R.cons_attr} <- {canon(v)[:60]} (the user's callable, None, or a shape-only wrapper)")
+        else:
+            ctx.fail(init, st, f"self.{R.cons_attr} is set to '{canon(v)[:70]}', not to the user's constraint function: what the filters compare with 0 is no longer what the user's function reports (e.g. NaN mapped to 0 counts as feasible)", construct=f"self.{R.cons_attr} <- wrapper {canon(v)[:50]}")
+    # any other store to the attribute in the class
+    for m, t, v, st, k in attr_stores(prog, R.bads, R.cons_attr):
+        if m is not init:
+            ctx.fail(m, st, f"self.{R.cons_attr} is re-assigned outside the constructor", construct=f"self.{R.cons_attr} re-assigned in {m.name}")
 
 
 def check(ctx):
@@ -200,6 +261,10 @@ def check(ctx):
     for m, t, v, s, k in attr_stores(prog, R.bads, "x"):
         okx = isinstance(v, ast.Call) and isinstance(v.func, ast.Attribute) and v.func.attr == R.inverse.name and v.args and canon(v.args[0]) in POINT_SLOTS
         ctx.check(okx, m, s, "self.x = inverse_transf(incumbent slot)", "the returned solution is not derived from the incumbent slot", construct=f"self.x <- {canon(v)[:60]}")
+    # ------------------------------------------------------------------ R5
+    ctx.rule("R5", "the constraint callable the optimizer stores is the user's own (or a wrapper that only reshapes its result)", floor=1)
+    constraint_identity(ctx, prog, R)
+
     ctx.assume("the user's constraint function is deterministic and side-effect free")
     ctx.assume("boolean-mask row selection keeps exactly the rows whose mask entry is True")
 
